@@ -754,7 +754,7 @@ func init() {
 		Build: func(c *Ctx) []core.Workload {
 			r := c.Run
 			r.Rule = "requests are drawn from a generator of conformant messages (serialisation style x binding x signing x percent-encoding style x KeyInfo layout x SP/IdP signing requirements), each against a fresh provider; the monitor requires acceptance (AuthnRequest: persisted + 303; LogoutRequest / AttributeQuery: status Success). A further workload drives ONE provider with a host-derived issuer through sequences of conformant requests under several hosts (each addressed to the location advertised for its own host); one where the advertised single-sign-on / logout location has a query of its own; and one where a single process serves more than 100 MiB of ordinary, heavily indented redirect-binding messages. Distinct = (class labels, serialisation style, configuration); all are non-trivial."
-						r.Assume("timestamps use the UTC 'Z' form with 0-9 fractional digits, validity windows have >= 60 s margin")
+			r.Assume("timestamps use the UTC 'Z' form with 0-9 fractional digits, validity windows have >= 60 s margin")
 			r.Require("authn_accepted", 100)
 			r.Require("logout_success", 50)
 			r.Require("query_success", 50)
